@@ -13,7 +13,6 @@ verus! {
 //%% include prelude/itetable.rs
 //%% include-assumed prelude/bottomup.rs
 //%% include-assumed inc/bddbuilder.rs
-//%% include trusted/literal.rs
 //%% include trusted/model_iter.rs
 //%% include inc/robdd.rs
 } // verus!
